@@ -119,6 +119,27 @@ def check(run, driver):
             if abs(lhs - rhs) > TOL(lhs):
                 run.prop_fail("chain rule I(X;Y,Z) = I(X;Z) + I(X;Y|Z) violated", case, {**sig, "clause": "chain"}, {"lhs": lhs, "rhs": rhs})
         meta.append((case, val)); reqs.append({"op": "gauss_ratio", "W": mat(W), "kx": kx, "ky": ky, "kz": kz})
+    # ---- nearly independent scalar samples: true information between 1e-9 and 1e-5 (sample correlation 1e-4 .. 5e-3), built exactly:
+    #      y = (noise orthogonalised against x) + delta * x. Tiny positive values must come through the dispatcher unchanged
+    for it in range(30 if thorough else 12):
+        N = int(rng.integers(20, 60))
+        x = rng.standard_normal(N); x -= x.mean()
+        e = rng.standard_normal(N); e -= e.mean(); e -= (e @ x) / (x @ x) * x
+        delta = float(10 ** rng.uniform(-4, -2.3))
+        y = e + delta * x * math.sqrt((e @ e) / (x @ x))
+        X, Y = x.reshape(-1, 1), y.reshape(-1, 1)
+        Z = None
+        if it % 3 == 2:
+            Z = rng.standard_normal((N, 1)); Z -= Z.mean(); Z -= (Z[:, 0] @ x) / (x @ x) * X; Z -= (Z[:, 0] @ e) / (e @ e) * e.reshape(-1, 1)
+        val = float(gaussian_conditional_mutual_information(X, Y, Z))
+        ref = float(ls_reference(X, Y, Z))
+        disp = float(conditional_mutual_information(X, Y, Z, method="gaussian"))
+        case = {"N": N, "kx": 1, "ky": 1, "kz": 0 if Z is None else 1, "regime": "nearly independent", "delta": delta, "X": X, "Y": Y, "Z": Z}
+        run.case("gaussian-tiny", [N, delta, float(x[0])], True, sample={"N": N, "delta": delta, "impl": val, "reference": ref, "dispatcher": disp})
+        if not np.isfinite(val) or abs(val - ref) > TOL(ref):
+            run.prop_fail("Gaussian (conditional) MI differs from the closed form on a nearly independent sample", case, {"estimator": "gaussian", "kz": case["kz"], "clause": "closed_form", "regime": "tiny"}, {"impl": val, "reference": ref})
+        elif disp != max(0.0, val):
+            run.prop_fail("dispatcher('gaussian') differs from max(0, estimator)", case, {"estimator": "gaussian", "kz": case["kz"], "clause": "dispatcher", "regime": "tiny"}, [disp, val])
     # ---- the same numbers in narrower dtypes (small integers: exactly representable in every one of them) must give the same value
     for it in range(40 if thorough else 12):
         kx, ky = int(rng.integers(1, 3)), int(rng.integers(1, 3)); kz = int(rng.integers(0, 3))
